@@ -52,6 +52,13 @@ class OutOfScope(BaseException):
     Exception`` in the code under test can swallow it."""
 
 
+class StepBudgetExceeded(BaseException):
+    """A sequential reader issued far more read() calls on a SimFile than the
+    file has bytes: it is not going to terminate (the deterministic, replayable
+    stand-in for a hang; a loop that spins without reading is only stopped by
+    the per-chunk wall-clock guard, which is a harness timeout, not a verdict)."""
+
+
 def get_verif_seed():
     v = os.environ.get("VERIF_SEED", "")
     try:
@@ -109,10 +116,13 @@ class SimFile(object):
         self.seeks = 0
         self.flushes = 0
         self.closed = False
+        self.read_budget = None
 
     # --- reading
     def read(self, n=-1):
         self.reads += 1
+        if self.read_budget is not None and self.reads > self.read_budget:
+            raise StepBudgetExceeded("%d read() calls on a %d-byte file" % (self.reads, len(self._buf)))
         if n is None or n < 0:
             n = len(self._buf) - self._pos
         out = bytes(self._buf[self._pos : self._pos + n])
